@@ -238,7 +238,7 @@ def run(chk):
         "the Coq theorem's hypothesis is the checker MODEL; its agreement with the real checker is the correspondence run of this check",
         "`check accepts => the only documented rules it can miss are the listed ones` is enforced by the oracle of this run, not proved",
     ]
-    if os.environ.get("VERIF_KF_DEV") and not any(f.get("id") == "ref-binder" for f in chk.findings):
+    if os.environ.get("VERIF_KF_DEV"):
         # TEMPORARY fallback until the lead merges build/kf-C02.json into known_findings.json (drop after merging)
         try:
             chk.findings = json.load(open(os.path.join(vlib.VERIF, "build", "kf-C02.json")))
